@@ -204,7 +204,8 @@ func (s *state) Add(ctx context.Context, transaction Transaction, payload []byte
 		return s.updateState(tx, transaction)
 	}, stoabs.OnRollback(func() {
 		log.Logger().Warn("Reloading the XOR and IBLT trees due to a DB transaction Rollback")
-		s.loadState(ctx)
+		// not with ctx: the rollback may be caused by that context having ended, and the reload has to happen regardless
+		s.loadState(context.Background())
 	}), stoabs.AfterCommit(func() {
 		if txAdded {
 			s.notify(txEvent)
